@@ -37,6 +37,8 @@ def main(tier, replay=None):
              "bulk", sample=False)
     camp.run([], [["reset", "cycles %d" % m] for m in ((40, 300) if quick else (10, 40, 300, 3000))], "ownership-cycles", sample=False)
     camp.run([], [["reset", "tuplenull"]], "tuple-with-null-item", sample=False)
+    # the only reference lives in a callee-saved register (the roots include the registers, not just the stack)
+    camp.run([], [["reset", "reghold"]], "register-root", sample=False)
     # a heap Tuple filled (concat, constructor, assign) from a Map whose function allocates: collections in the middle of the fill
     camp.run([], [["reset", "tuplefill %d %d" % (n, how)] for n in (300, 3000) for how in (0, 1, 2)], "tuple-filled-while-collecting", sample=False)
     camp.run([], [["reset", "threadfunc"]], "thread-holds-its-function", sample=False)
